@@ -172,8 +172,8 @@ def run(chk):
         open(p2, "w").write(bad_doc)
         for argv, want_ok in ((["parse", p], True), (["parse", "-j", p], True), (["parse", p2], False), ([], False),
                               (["parse", "-j", "--ms", "1", p], False)):
-            r = subprocess.run(["/venv/bin/python", "-m", "demes"] + argv, cwd="/repo", capture_output=True, text=True,
-                               env=dict(os.environ, PYTHONPATH="/repo"))
+            r = subprocess.run(["/venv/bin/python", "-m", "demes"] + argv, cwd=common.REPO, capture_output=True, text=True,
+                               env=dict(os.environ, PYTHONPATH=common.REPO))
             chk.case(["subprocess", argv], nontrivial=True)
             if (r.returncode == 0) != want_ok:
                 chk.violation("cli:exit-status", "python -m demes %r exits %d" % (argv, r.returncode), dict(argv=argv, stderr=r.stderr[-500:]))
